@@ -24,7 +24,7 @@ import verif
 from verif import log
 
 LEVEL = "proof"
-PROPS = ["GeosModel.Props.C10"]
+PROPS = ["GeosModel.Props.C10", "GeosModel.Props.C10Dims"]
 DRV = "drv_c10"
 
 ALPHABET = set("0123456789.e+-")
